@@ -58,7 +58,7 @@ Descs ==
 EOps == {<<"attr", K1, v>> : v \in {<<49>>, <<34>>, <<60>>}} \cup {<<"attr", K2, <<>>>>}
         \cup {<<"attrs", <<<<K1, <<49>>>>, <<K2, <<38>>>>>>>>, <<"attrs", <<<<NE, <<50>>>>>>>>, <<"attrs", <<>>>>, <<"nl">>}
 ENames == {NA, <<97, 98, 99>>}
-EFins == {<<"empty">>, <<"text", <<60>>>>, <<"cdata", <<99>>>>, <<"pi", <<112>>>>}
+EFins == {<<"empty">>, <<"text", <<60>>>>, <<"inner", <<38>>>>, <<"cdata", <<99>>>>, <<"pi", <<112>>>>}
 EDepths == {0, 1, 2}
 ElemIndents == Indents \cup {NoIndent}
 \* the events around and of the element: d Start events, the element, d End events
